@@ -14,7 +14,7 @@ import itertools
 from ..core import Partial, Report, pmap, seed_from_env
 from ..oracles import routing as O
 from ..routing import SPECS
-from ..rtree import explore_instance, selected_specs, sig, solo_confirm, trace_replay_record
+from ..rtree import explore_instance, selected_specs, sig, solo_confirm, solo_validate, trace_replay_record
 
 PID = "C05"
 
@@ -85,6 +85,8 @@ def unit(item):
         reached = {}
         for h in tree.leaves:
             reached.setdefault(O.canon(spec.kind, oi, h, cfg), h)
+        for b in solo_validate(spec, env, td0, tree, p, k=3):
+            p.note(f"{spec.key} {iid}: batched frontier and solo stepping disagree at {b} (reported under C04)")
         must, may = {}, {}
         n_cand = 0
         for sol in candidates(spec, oi, cfg):
